@@ -123,7 +123,16 @@ def check_render(doc, opt, ctx):
     from prov.dot import prov_to_dot
     problems = []
     try:
-        dot = prov_to_dot(doc, **opt)
+        # the options are given by keyword, in the documented positional order, or mixed (seeded by the options themselves)
+        how = (opt["show_nary"] + 2 * opt["use_labels"] + 4 * opt["show_element_attributes"] + len(opt["direction"])) % 3
+        if how == 0:
+            dot = prov_to_dot(doc, **opt)
+        elif how == 1:
+            dot = prov_to_dot(doc, opt["show_nary"], opt["use_labels"], opt["direction"], opt["show_element_attributes"], opt["show_relation_attributes"])
+        else:
+            dot = prov_to_dot(doc, opt["show_nary"], opt["use_labels"], opt["direction"], show_relation_attributes=opt["show_relation_attributes"],
+                              show_element_attributes=opt["show_element_attributes"])
+        ctx.count("call_form.%s" % ("keywords", "positional", "mixed")[how])
         text = dot.to_string()
     except Exception as e:
         return ["prov_to_dot raised %s: %s" % (type(e).__name__, str(e)[:200])], None
